@@ -50,7 +50,7 @@ def _case(draw, tier):
         base = []
     else:
         atoms, conds = draw(gen.strong_base(1, 4, 5, consts=False))
-        sig = list(atoms)
+        sig = list(draw(st.permutations(atoms)))
         ranks = None
         base = [[i, fm.to_json(B), fm.to_json(A)] for i, (B, A) in enumerate(conds, 1)]
     fs = [draw(gen.formula(sig)) for _ in range(draw(st.integers(2, 4)))]
